@@ -257,6 +257,44 @@ theorem C02_detached_handle_write_does_not_reach_backend (fams : List Fam) (hist
   obtain ⟨hok, hwn⟩ := srun_ownOK history _ (empty_idOK fams) (empty_ownOK fams)
   exact call_detached_refines s oi id o d t0 op ho hst hown hok hnot (lt_next_of_owner hwn hown) hdet herr hns hm hpre
 
+/-- C02, A REJECTED LOAD CHANGES NOTHING.  When the backend holds a document the root cannot merge —
+a list where the root is a dict, a dict where it is a list, a bare scalar — `_update` raises
+`ValueError` and leaves the tree, the identity counter and the set of detached nodes exactly as they
+were: no partial merge, nothing to undo.  So the object is as usable as before, and since the
+history theorems (`C02_getitem_in_any_history`, `C02_child_read_in_any_history`) quantify over
+histories in which calls raise, the first read after a mergeable document is back returns the
+backend's content.  (The code keeps one more piece of state across a load, the counter that suspends
+synchronisation; that it is restored when the merge raises is what the correspondence programs with
+unmergeable root documents check.) -/
+theorem C02_rejected_load_changes_nothing (fam : Fam) {ι : Type} (t : T) (d : Tr ι) (n : Nat)
+    (hk : sameKind t d = false) (hnn : d ≠ .leaf .null) :
+    (updNode fam t d n).val = t ∧ (updNode fam t d n).next = n ∧ (updNode fam t d n).det = [] ∧
+    (updNode fam t d n).err = some .valueError := by
+  cases t with
+  | leaf s =>
+    cases d with
+    | leaf s' => cases s' <;> simp_all [updNode]
+    | list j ys => simp [updNode]
+    | dict j kws => simp [updNode]
+  | list i xs =>
+    cases d with
+    | leaf s' => cases s' <;> simp_all [updNode]
+    | list j ys => simp [sameKind] at hk
+    | dict j kws => simp [updNode]
+  | dict i kvs =>
+    cases d with
+    | leaf s' => cases s' <;> simp_all [updNode]
+    | list j ys => simp [updNode]
+    | dict j kws => simp [sameKind] at hk
+
+/-- non-vacuity: a dict root against a list document -/
+example :
+    let fam : Fam := ⟨[.requireStringKey, .jsonFormat], [.requireStringKey, .jsonFormat]⟩
+    let t : T := .dict 0 [(.s "a", .dict 1 [])]
+    let d : J := .list () [.leaf (.int 1)]
+    sameKind t d = false ∧ (updNode fam t d 2).err = some .valueError := by
+  decide
+
 /-- C02, WHEN A POSITION GOES, THE HANDLE IS NOT THERE ANY MORE.  After a merge that returns normally —
 any stale memory `t`, any data `d`, any path `p` of any length — what sits at `p` in memory is what
 the data has at `p`: if the data has nothing there (key removed, list shortened, a container above
